@@ -233,6 +233,10 @@ inductive DEv where
   | lost (withExc : Bool)  -- `connection_lost(exc)`
   | setReader              -- `redirect(stdin/stdout=source)`: `set_reader` registers a source for the stream
   | readerDone             -- the source ended (`feed_eof` → `clear_reader`) or was replaced by `PIPE`
+  | peerClose (unsent : Bool)
+      -- the peer's CHANNEL_CLOSE arrives while `connection_lost` has to wait (received data is still queued behind a
+      -- paused reader): `SSHChannel._process_close` → `_close_send()` throws the send buffer away (`unsent`: it was
+      -- not empty) and then `_pause_resume_writing()` resumes a session that was paused for writing
 deriving DecidableEq, Repr
 
 structure DSt where
@@ -240,16 +244,24 @@ structure DSt where
   connLost    : Bool := false
   exc         : Bool := false
   reader      : Bool := false   -- `datatype in self._readers`
+  discarded   : Bool := false   -- channel `_send_discarded`: unsent data was thrown away when the channel closed
+deriving DecidableEq, Repr
+
+/-- which of the repairs the code has (all `true` = the code as it is) -/
+structure DCfg where
+  wakeAfterClear    : Bool := true   -- A-C19-1: `SSHProcess.connection_lost` signals the drain waiters again after
+                                     -- `self._readers = {}`
+  resumeOnPeerClose : Bool := true   -- C09 (repo 352f310): `_process_close` calls `_pause_resume_writing()` after
+                                     -- `_close_send()`
+  failOnDiscard     : Bool := true   -- `drain`: a call that had to wait and finds that unsent data was discarded fails
 deriving DecidableEq, Repr
 
 /-- `SSHProcess._should_block_drain` -/
 def shouldBlockDrain (s : DSt) : Bool := s.reader || (s.writePaused && !s.connLost)
 
 /-- One event: the state after it and whether a `drain()` waiting at that moment is woken (the event called
-    `_unblock_drain` at a point where `_should_block_drain` was false).
-    `fixed = true`: `SSHProcess.connection_lost` calls `_unblock_drain` once more after `self._readers = {}` (repair
-    of finding A-C19-1); `fixed = false`: only the base class's call, made while the readers are still registered. -/
-def dstepW (fixed : Bool) (s : DSt) : DEv → DSt × Bool
+    `_unblock_drain` at a point where `_should_block_drain` was false). -/
+def dstepW (cfg : DCfg) (s : DSt) : DEv → DSt × Bool
   | .pauseWriting => ({ s with writePaused := true }, false)
   | .resumeWriting =>
     let s' := { s with writePaused := false }
@@ -263,37 +275,52 @@ def dstepW (fixed : Bool) (s : DSt) : DEv → DSt × Bool
   | .lost e =>
     let s1 := { s with connLost := true, exc := e }     -- `super().connection_lost(exc)` ... `_unblock_drain`
     let s2 := { s1 with reader := false }               -- `self._readers = {}`
-    (s2, !shouldBlockDrain s1 || (fixed && !shouldBlockDrain s2))
+    (s2, !shouldBlockDrain s1 || (cfg.wakeAfterClear && !shouldBlockDrain s2))
+  | .peerClose unsent =>
+    -- a session paused for writing has more than the low-water mark buffered: that data is discarded, too
+    let s1 := { s with discarded := s.discarded || unsent || s.writePaused }
+    if cfg.resumeOnPeerClose && s.writePaused then
+      let s2 := { s1 with writePaused := false }        -- `resume_writing()`
+      (s2, !shouldBlockDrain s2)
+    else (s1, false)
 
-def dstep (s : DSt) (e : DEv) : DSt := (dstepW true s e).1
+def dstep (s : DSt) (e : DEv) : DSt := (dstepW {} s e).1
 
 inductive DrainRes where
   | returned | raisedExc | brokenPipe | blocked
 deriving DecidableEq, Repr
 
 /-- the part of `drain` after its loop: fail if the connection was lost with an exception, or was lost while
-    writing was still paused -/
-def drainFinish (s : DSt) : DrainRes :=
+    writing was still paused; otherwise (`elif blocked and self._chan and self._chan.was_write_discarded()`) fail if
+    this call had to wait and what it waited for was thrown away -/
+def drainFinish (cfg : DCfg) (blocked : Bool) (s : DSt) : DrainRes :=
   if s.connLost then
     if s.exc then .raisedExc else if s.writePaused then .brokenPipe else .returned
+  else if cfg.failOnDiscard && blocked && s.discarded then .brokenPipe
   else .returned
 
-/-- a `drain()` call that is waiting: it runs again only when an event wakes it (the woken task runs before the
-    next event; nothing else can intervene, so its loop test passes) -/
-def drainWait (fixed : Bool) : DSt → List DEv → DrainRes × DSt
+/-- a `drain()` call that is waiting (`blocked = True`): it runs again only when an event wakes it (the woken task
+    runs before the next event; nothing else can intervene, so its loop test passes) -/
+def drainWait (cfg : DCfg) : DSt → List DEv → DrainRes × DSt
   | s, [] => (.blocked, s)
   | s, e :: rest =>
-    let r := dstepW fixed s e
-    if r.2 then (drainFinish r.1, r.1) else drainWait fixed r.1 rest
+    let r := dstepW cfg s e
+    if r.2 then (drainFinish cfg true r.1, r.1) else drainWait cfg r.1 rest
 
 /-- `SSHStreamSession.drain` on a process session -/
-def drainW (fixed : Bool) (s : DSt) (evs : List DEv) : DrainRes × DSt :=
-  if shouldBlockDrain s then drainWait fixed s evs else (drainFinish s, s)
+def drainW (cfg : DCfg) (s : DSt) (evs : List DEv) : DrainRes × DSt :=
+  if shouldBlockDrain s then drainWait cfg s evs else (drainFinish cfg false s, s)
 
 /-- the code as it is (repaired) -/
-def drain (s : DSt) (evs : List DEv) : DrainRes × DSt := drainW true s evs
+def drain (s : DSt) (evs : List DEv) : DrainRes × DSt := drainW {} s evs
 
 /-- the code before the repair of A-C19-1 -/
-def drainPreFix (s : DSt) (evs : List DEv) : DrainRes × DSt := drainW false s evs
+def drainPreFix (s : DSt) (evs : List DEv) : DrainRes × DSt := drainW { wakeAfterClear := false } s evs
+
+/-- the code before C09's repair (repo 352f310): the peer's CLOSE did not resume a session paused for writing -/
+def drainNoResumeOnClose (s : DSt) (evs : List DEv) : DrainRes × DSt := drainW { resumeOnPeerClose := false } s evs
+
+/-- C09's repair alone: the session is resumed at the peer's CLOSE and `drain` has no test of its own -/
+def drainNoDiscardTest (s : DSt) (evs : List DEv) : DrainRes × DSt := drainW { failOnDiscard := false } s evs
 
 end AsyncsshModel.StreamProc
